@@ -19,6 +19,7 @@ type ChatManager interface {
 	GetSubject(id ChatID) string
 	Join(id ChatID, cc *ClientConn)
 	Leave(id ChatID, clientID [2]byte)
+	LeaveAll(clientID [2]byte)
 	SetSubject(id ChatID, subject string)
 	Members(id ChatID) []*ClientConn
 }
@@ -67,6 +68,16 @@ func (cm *MemChatManager) Leave(id ChatID, clientID [2]byte) {
 	}
 
 	delete(privChat.ClientConn, clientID)
+}
+
+// LeaveAll removes the client from every private chat it is a member of.
+func (cm *MemChatManager) LeaveAll(clientID [2]byte) {
+	cm.mu.Lock()
+	defer cm.mu.Unlock()
+
+	for _, privChat := range cm.chats {
+		delete(privChat.ClientConn, clientID)
+	}
 }
 
 func (cm *MemChatManager) GetSubject(id ChatID) string {
@@ -123,6 +134,10 @@ func (m *MockChatManager) Join(id ChatID, cc *ClientConn) {
 
 func (m *MockChatManager) Leave(id ChatID, clientID [2]byte) {
 	m.Called(id, clientID)
+}
+
+func (m *MockChatManager) LeaveAll(clientID [2]byte) {
+	m.Called(clientID)
 }
 
 func (m *MockChatManager) SetSubject(id ChatID, subject string) {
